@@ -78,5 +78,23 @@ def run(repo, harnesses, timeout=2400, jobs=8):
     return out
 
 
+def playback(repo, harness, timeout=1200):
+    """concrete counterexample of a failing harness: the unit test Kani generates (-Z concrete-playback)"""
+    dst = prepare(repo)
+    env = dict(os.environ, CARGO_NET_OFFLINE='true')
+    cmd = ['cargo', 'kani', '--target-dir', TGT, '-Z', 'stubbing', '-Z', 'concrete-playback', '--concrete-playback=print',
+           '--output-format', 'terse', '--harness', harness]
+    try:
+        p = subprocess.run(cmd, cwd=dst, env=env, capture_output=True, text=True, timeout=timeout)
+    except subprocess.TimeoutExpired:
+        return None
+    t = p.stdout + p.stderr
+    m = re.search(r'Concrete playback unit test for `[^`]*`:\s*```\n(.*?)```', t, re.S)
+    if not m:
+        return None
+    return {'cmd': 'CARGO_NET_OFFLINE=true ' + ' '.join(cmd), 'unit_test': m.group(1),
+            'how_to_replay': 'add the unit test to src/verif_kani.rs of the scratch copy (build/kani_scratch/repo) and run: cargo kani playback -Z concrete-playback --target-dir build/kani_target -- ' + 'kani_concrete_playback_' + harness}
+
+
 if __name__ == '__main__':
     print(json.dumps(run(sys.argv[1], sys.argv[2:]), indent=1))
